@@ -6,7 +6,7 @@ import EPV.Lemmas.CalendarOps
 set_option linter.unusedVariables false
 set_option linter.unusedSimpArgs false
 namespace EPV.Cal
-open EPV.Timeline (isLeap yearLen monthLen daysBeforeYearC daysBeforeMonthC dayNumC Val)
+open EPV.Timeline (isLeap yearLen monthLen daysBeforeYearC daysBeforeMonthC dayNumC Val roundHalfUp IsRoundHalfUp IsRoundHalfEven roundNearestEven)
 
 theorem leapdays_eq (y1 y2 : Int) : leapdays y1 y2 = daysBeforeYearC y2 - daysBeforeYearC y1 - 365 * (y2 - y1) := by
   unfold leapdays daysBeforeYearC; simp only []; omega
@@ -91,5 +91,111 @@ theorem durationCmp_eq (op : Cmp) (m1 s1 m2 s2 : Int) :
   simp only [durationCmp, Timeline.durationCmp, List.all_cons, List.all_nil]
   rw [durationCmp_ref op 1696 9 _ _ _ _ (by decide), durationCmp_ref op 1697 2 _ _ _ _ (by decide),
     durationCmp_ref op 1903 3 _ _ _ _ (by decide), durationCmp_ref op 1903 7 _ _ _ _ (by decide)]
+
+/-- Euclidean division facts in a form omega can use with the product `q * d` as an atom -/
+theorem ediv_bounds (a d : Int) (hd : 0 < d) : (a / d) * d ≤ a ∧ a < (a / d) * d + d := by
+  have h1 := Int.mul_ediv_add_emod a d
+  have h2 := Int.emod_nonneg a (Int.ne_of_gt hd)
+  have h3 := Int.emod_lt_of_pos a hd
+  have e : d * (a / d) = (a / d) * d := Int.mul_comm _ _
+  omega
+
+theorem ediv_unique (a d q : Int) (hd : 0 < d) (h1 : q * d ≤ a) (h2 : a < q * d + d) : a / d = q := by
+  have b := ediv_bounds a d hd
+  rcases Int.lt_trichotomy (a / d) q with h | h | h
+  · have : (a / d + 1) * d ≤ q * d := Int.mul_le_mul_of_nonneg_right (by omega) (Int.le_of_lt hd)
+    have e : (a / d + 1) * d = (a / d) * d + d := by rw [Int.add_mul, Int.one_mul]
+    omega
+  · exact h
+  · have : (q + 1) * d ≤ (a / d) * d := Int.mul_le_mul_of_nonneg_right (by omega) (Int.le_of_lt hd)
+    have e : (q + 1) * d = q * d + d := by rw [Int.add_mul, Int.one_mul]
+    omega
+
+/-- both branches of `round_number` are `⌊x + 1/2⌋` -/
+theorem roundNumber_eq (num den : Int) (hd : 0 < den) : roundNumber num den = (2 * num + den) / (2 * den) := by
+  unfold roundNumber
+  split
+  · rfl
+  · have : -(2 * -num - den) = 2 * num + den := by omega
+    rw [this]; omega
+
+theorem roundNumber_spec (num den : Int) (hd : 0 < den) : IsRoundHalfUp num den (roundNumber num den) := by
+  rw [roundNumber_eq num den hd]
+  have b := ediv_bounds (2 * num + den) (2 * den) (by omega)
+  generalize (2 * num + den) / (2 * den) = q at *
+  unfold IsRoundHalfUp
+  have e : q * (2 * den) = 2 * (q * den) := by rw [Int.mul_left_comm]
+  omega
+
+theorem isRoundHalfUp_unique (num den r r' : Int) (hd : 0 < den) (h : IsRoundHalfUp num den r) (h' : IsRoundHalfUp num den r') :
+    r = r' := by
+  unfold IsRoundHalfUp at *
+  rcases Int.lt_trichotomy r r' with hl | he | hg
+  · have : (r + 1) * den ≤ r' * den := Int.mul_le_mul_of_nonneg_right (by omega) (Int.le_of_lt hd)
+    have e : (r + 1) * den = r * den + den := by rw [Int.add_mul, Int.one_mul]
+    omega
+  · exact he
+  · have : (r' + 1) * den ≤ r * den := Int.mul_le_mul_of_nonneg_right (by omega) (Int.le_of_lt hd)
+    have e : (r' + 1) * den = r' * den + den := by rw [Int.add_mul, Int.one_mul]
+    omega
+
+theorem roundHalfUp_spec (num den : Int) (hd : 0 < den) : IsRoundHalfUp num den (roundHalfUp num den) := by
+  unfold roundHalfUp IsRoundHalfUp
+  have b := ediv_bounds num den hd
+  simp only []
+  generalize num / den = q at *
+  split
+  · have e : (q + 1) * den = q * den + den := by rw [Int.add_mul, Int.one_mul]
+    omega
+  · omega
+
+/-- the library's `round_number` is F&O's `fn:round` -/
+theorem roundNumber_eq_spec (num den : Int) (hd : 0 < den) : roundNumber num den = roundHalfUp num den :=
+  isRoundHalfUp_unique num den _ _ hd (roundNumber_spec num den hd) (roundHalfUp_spec num den hd)
+
+theorem roundHalfEven_spec (num den : Int) (hd : 0 < den) : IsRoundHalfEven num den (roundHalfEven num den) := by
+  unfold roundHalfEven IsRoundHalfEven
+  have b := ediv_bounds num den hd
+  have hm : num % den = num - (num / den) * den := by
+    have h1 := Int.mul_ediv_add_emod num den
+    have e : den * (num / den) = (num / den) * den := Int.mul_comm _ _
+    omega
+  simp only [hm]
+  generalize num / den = q at *
+  have e : (q + 1) * den = q * den + den := by rw [Int.add_mul, Int.one_mul]
+  split
+  · refine ⟨by omega, by omega, by omega⟩
+  · split
+    · rw [e]; refine ⟨by omega, by omega, by omega⟩
+    · split
+      · rename_i h1 h2 h3; refine ⟨by omega, by omega, fun _ => h3⟩
+      · rename_i h1 h2 h3; rw [e]; refine ⟨by omega, by omega, fun _ => by omega⟩
+
+theorem roundHalfEven_eq_spec (num den : Int) (hd : 0 < den) : roundHalfEven num den = roundNearestEven num den := by
+  unfold roundHalfEven roundNearestEven
+  have hm : num % den = num - (num / den) * den := by
+    have h1 := Int.mul_ediv_add_emod num den
+    have e : den * (num / den) = (num / den) * den := Int.mul_comm _ _
+    omega
+  simp only [hm]
+  generalize num / den = q
+  have e : (q + 1) * den = q * den + den := by rw [Int.add_mul, Int.one_mul]
+  rw [e]
+  split <;> split <;> (try split) <;> (try split) <;> first | rfl | omega
+
+theorem durMk_ok (m u : Int) (r : Dur) (h : durMk m u = .ok r) : r = ⟨m, u⟩ := by
+  unfold durMk at h
+  split at h
+  · cases h
+  · split at h
+    · cases h
+    · split at h
+      · cases h
+      · cases h; rfl
+
+theorem durMk_of_bounds (m u : Int) (hs : ¬ ((u < 0 ∧ 0 < m) ∨ (m < 0 ∧ 0 < u))) (hm : m.natAbs ≤ 2 ^ 31)
+    (hu : u.natAbs ≤ 2 ^ 63 * 1000000) : durMk m u = .ok ⟨m, u⟩ := by
+  unfold durMk
+  rw [if_neg hs, if_neg (by omega), if_neg (by omega)]
 
 end EPV.Cal
